@@ -143,7 +143,7 @@ SolveResult minimize(auto && f, auto && x, auto && cb, const MinimizeOptions & o
       std::apply(cb, x);
 
       // check for convergence
-      if (std::abs(actu_red) < opts.ftol && pred_red < opts.ftol && rho <= 2.) {
+      if (r_n == 0 || (std::abs(actu_red) < opts.ftol && pred_red < opts.ftol && rho <= 2.)) {
         status = SolveResult::Status::Ftol;
       } else if (d.cwiseProduct(dx).stableNorm() < opts.ptol * static_cast<double>(dx.size())) {
         status = SolveResult::Status::Ptol;
